@@ -581,7 +581,7 @@ func TestVfPhantom(t *testing.T) {
 				}
 				udpSeg := []byte{0x30, 0x39, 0x9c, 0x40, 0, 8, 0, 0}
 				for _, f := range [][]byte{
-					vfLink(vpn, 0x0800, vfIP4(5, 4, 0, 64, in, vfIP4(5, 17, 0, 64, in, udpSeg))),          // IP-in-IP + UDP
+					vfLink(vpn, 0x0800, vfIP4(5, 4, 0, 64, in, vfIP4(5, 17, 0, 64, in, udpSeg))),                // IP-in-IP + UDP
 					vfLink(vpn, 0x0800, vfIP4(5, 4, 0, 64, in, vfIP4(5, l4, 0, 64, net.IPv4(1, 2, 3, 4), seg))), // IP-in-IP + L4
 					vfLink(vpn, 0x0800, vfIP4(5, 17, 0, 64, in, udpSeg)),
 					vfLink(vpn, 0x0800, vfIP4(5, l4, 0x2000, 64, in, seg)),
